@@ -25,10 +25,12 @@ CHECKS.update({
     'C02': dict(text='One-step refinement (success iff CAS equal, failures leave the item untouched, acknowledged CAS = stored CAS, tokens strictly '
                      'increase within a lifetime, counter stays ahead of stored tokens) plus in-solver BMC of k-command histories from the empty store '
                      'for token re-issue within a lifetime (1 key k=3/5; 2 keys sharing the counter k=5; request CAS unrestricted) and for the reserved CAS 0; '
-                     'the counter invariant (monotone, ahead of every stored token, no wrap within 2^61 commands) is checked inductive; history witnesses are replayed natively.',
+                     'the counter invariant (monotone, ahead of every stored token, no wrap within 2^61 commands) is checked inductive; wire round trip of every mutating opcode '
+                     '(outcome class incl. key exists on a CAS mismatch, quiet opcodes silent exactly on success); history witnesses are replayed natively.',
                 design='5 C02', note=STORE_NOTE),
     'C05': dict(text='One-step refinement of visibility and deadline of every key after every command for every clock value and TTL: expired items '
-                     'are absent for all presence-dependent commands, no command (incl. delayed flush) moves a deadline later.',
+                     'are absent for all presence-dependent commands, no command (incl. delayed flush) moves a deadline later; TTL/flush history BMC; all schedules of '
+                     'get racing get/set/add on an expired item (it stays unretrievable).',
                 design='5 C05', note=STORE_NOTE + ' TTL ranges over all u32 (the statement speaks about 0..30 days).'),
     'C06': dict(text='One-step refinement of add/replace/append/prepend: status per presence, old+suffix / prefix+old as terms, flags kept, '
                      'rejected commands leave value, flags and CAS untouched; wire round trip of the append/prepend/add/replace/set opcodes incl. the quiet ones.', design='5 C06', note=STORE_NOTE),
@@ -38,7 +40,7 @@ CHECKS.update({
     'C08': dict(text='One-step refinement of delete (not found / key exists / removed, other keys untouched) and flush (immediate: nothing visible; '
                      'delay n: every deadline becomes min(old, now+n)); later stores unaffected; in-solver BMC of set/get/flush histories with clock advances, '
                      'all fields of the real MemoryStore threaded through the state vector; wire round trip of the delete/flush opcodes; all schedules of a CAS-carrying '
-                     'delete racing a store or another delete (linearizability).', design='5 C08', note=STORE_NOTE),
+                     'delete racing a store or another delete, and of get racing get/set/add on an item whose (flush) deadline has passed (linearizability).', design='5 C08', note=STORE_NOTE),
 })
 WIRE_NOTE = NOTE_COMMON + (' Wire level: one fully symbolic request frame (all 256 opcodes, all header fields) from an arbitrary well-formed '
              'store state through the real decode -> handle_request -> encode_message; key identity delegated to the map model.')
@@ -80,7 +82,7 @@ CHECKS.update({
     'C12': dict(text='Bounded model checking of the real connection loop on pipelines of m requests from a menu of loud/quiet/unimplemented opcodes '
                      'with quit/quitq anywhere and symbolic segmentation: handle_request called exactly for the requests before the quit, once each, '
                      'in order; exactly one in-order response per loud request, at most one per quiet one; quit answered then shutdown; quitq silent '
-                     'shutdown; the task always returns.', design='5 C12', note=SOCK_NOTE + ' Fresh server; quick m=2 / menu 8, thorough m=3 / menu 12.'),
+                     'shutdown; the task always returns; an oversized request inside the stream is skipped exactly under every segmentation.', design='5 C12', note=SOCK_NOTE + ' Fresh server; quick m=2 / menu 8, thorough m=3 / menu 12.'),
     'C13': dict(text='Decoder: too large <=> body_length > limit for every valid header, header-only consumption; handler: 0x03 echo, nothing '
                      'changed; socket: read_frame + skip_bytes on [oversized frame][followers] with every read size symbolic return ItemTooLarge and '
                      'leave the next unread position at exactly 24 + body_length, without panic, within the read bound; client level: Client::handle on an '
@@ -88,14 +90,14 @@ CHECKS.update({
                      '(server construction path, both runtime types), confirmed on the real server started from CLI arguments.',
                 design='5 C13', note=SOCK_NOTE + ' <= 3 (quick) / 4 (thorough) reads; bodies needing more 64 KiB skip reads are outside the bound.'),
     'C17': dict(text='The spawned connection task (async block of MemcacheTcpServer::run) executed for every kind of ending (close, quit, quitq, '
-                     'mid-request disconnect, reset, protocol error, oversized item, idle timeout, write error) at symbolic cut offsets and '
+                     'mid-request disconnect (also in the middle of an oversized body), reset, protocol error, oversized item, idle timeout, write error) at symbolic cut offsets and '
                      'segmentations: it terminates and returns exactly one permit (Drop for Client), also on unwinding; the accept loop with failing accept() / '
                      'failing socket set-up: min(incoming, permits) connections are served, a returned permit admits exactly one waiter, and once every connection '
                      'has ended `limit` fresh ones are served again; native loopback runs (limit 1, RST in the backlog, file-descriptor exhaustion) confirm.',
                 design='5 C17', note=SOCK_NOTE + ' tokio Semaphore trusted to be a counter; sequences of lifecycles by induction on the counter; '
                                                  'the accept-side acquire+forget is read from one iteration of the accept loop where the engine reaches it.'),
     'C18': dict(text='The real connection loop on m complete requests followed by a fault (close / reset / silence after a symbolic number of bytes of the '
-                     'next request, or a corrupted magic byte) with symbolic segmentation: exactly the complete requests are executed, once each and '
+                     'next request, or a corrupted magic byte) with symbolic segmentation and, for complete-then-close streams, a symbolic spare capacity of the read buffer: exactly the complete requests are executed, once each and '
                      'in order (a prefix after a reset), never the incomplete one, responses in order, the task returns; natively a second connection '
                      'is still served; the accept loop of MemcacheTcpServer::run survives an error on an accepted socket (peer_addr failing, reset in the backlog).',
                 design='5 C18', note=SOCK_NOTE + ' Task isolation is tokio\'s (trusted).'),
